@@ -312,7 +312,8 @@ func mulValRatio(value Quantity, ratio float64) Quantity {
 	}
 	result := float64(value) * ratio
 	// protect against positive integer overflow
-	if result > math.MaxInt64 {
+	// MaxInt64 is not representable as a float64: it converts to 2^63 which itself does not fit in an int64
+	if result >= math.MaxInt64 {
 		log.Log(log.Resources).Warn("Multiplication result positive overflow",
 			zap.Float64("value", float64(value)),
 			zap.Float64("ratio", ratio))
